@@ -19,7 +19,7 @@ class Case:
 
 
 class VerdictCrate:
-    def __init__(self, name, features, default_features=True, no_std=False, extra_deps="", with_nvrt=False, nshards=8, crate_attrs=""):
+    def __init__(self, name, features, default_features=True, no_std=False, extra_deps="", with_nvrt=False, nshards=8, crate_attrs="", alloc=True):
         self.name = name
         self.dir = os.path.join(WORK, name)
         self.features = features
@@ -29,6 +29,7 @@ class VerdictCrate:
         self.with_nvrt = with_nvrt
         self.nshards = nshards
         self.crate_attrs = crate_attrs
+        self.alloc = alloc
         self.target = os.path.join(WORK, "target-nostd" if no_std else "target")
         self.ranges = {}
         self.prefix = "v_" + "".join(c if c.isalnum() else "_" for c in name) + "_"
@@ -46,7 +47,8 @@ class VerdictCrate:
             head = ["#![allow(dead_code, unused_imports, unused_variables, unused_mut, non_snake_case, non_camel_case_types, unused_unsafe, unreachable_code, clippy::all)]"]
             if self.no_std:
                 head.insert(0, "#![no_std]")
-                head.append("extern crate alloc;")
+                if self.alloc:
+                    head.append("extern crate alloc;")
             if self.crate_attrs:
                 head.append(self.crate_attrs)
             lines = list(head)
